@@ -51,7 +51,7 @@ KEY_NONEQ = "relation-noneq-as-upper-bound"
 KEY_NONHARD = "relation-from-non-requirement"
 KEY_UNNORM = "relheading-range-not-normalised"
 KEY_OFFSET = "containment-offset-exceeds-inradius"
-KEY_VISBUF = "visibility-buffer-not-dilated"
+KEY_VISBUF = "visibility-buffer-relative-pitch"
 KEY_TOUCH = "rh-touching-cells-assertion"
 BITKEYS = [(16, KEY_NONEQ, "noneq"), (32, KEY_NONHARD, "nonhard"), (64, KEY_UNNORM, "unnorm"),
            (128, KEY_OFFSET, "offset"), (256, KEY_VISBUF, "visbuf")]
@@ -293,7 +293,7 @@ def real_program(item):
     out = {"id": p["id"], "text": text}
     signal.signal(signal.SIGALRM, _alarm)
 
-    def compile_(prune, snap):
+    def compile_(prune, snap, guard=COMPILE_GUARD_S):
         translator.usePruning = prune
         orig = pruning.pruneVisibility
 
@@ -305,7 +305,7 @@ def real_program(item):
         pruning.pruneVisibility = watching
         t0 = time.time()
         _fired[0] = False
-        signal.alarm(COMPILE_GUARD_S)
+        signal.alarm(guard)
         try:
             sc = scenic.scenarioFromString(text, mode2D=False)
             return sc, time.time() - t0, None
@@ -321,6 +321,10 @@ def real_program(item):
     su, tu, eu = compile_(False, {})
     snap = {}
     sp, tp, ep = compile_(True, snap)
+    if ep == "TIMEOUT":  # could be the load of the box: once more with three times the guard
+        snap = {}
+        sp, tp, ep = compile_(True, snap, 3 * COMPILE_GUARD_S)
+        out["retried_after_timeout"] = True
     out.update(t_unpruned=round(tu, 3), t_pruned=round(tp, 3), err_unpruned=eu, err_pruned=ep)
     if su is None or sp is None:
         return out
@@ -378,7 +382,7 @@ def real_program(item):
     lost = []
     rejected = 0
     _fired[0] = False
-    signal.alarm(120)
+    signal.alarm(40 if nscenes <= 8 else 120)  # a bound on the machinery, not on the code under test
     try:
         for _n in range(nscenes):
             try:
@@ -462,10 +466,11 @@ def lattice_part(ck, tier, pairing):
         grids = {str(oid): {"xs": o["xs"], "ys": o["ys"], "zs": o["zs"]} for (pid, oid), o in spec.items() if pid == p["id"]}
         if not grids:
             raise MachineryError(f"no TLC output for program {p['id']}")
-        items.append((p, grids, nscenes))
-    results = pmap(real_program, items, procs=4, chunk=1)
+        items.append((p, grids, max(nscenes, p.get("nscenes", 0))))
+    results = pmap(real_program, items, procs=6, chunk=1)
 
     fam_stats = {}
+    slow = []
     dropped_why = []
     tot = dict(probes=0, feasible_probes=0, lost_probes=0, outside_base_probes=0, scenes=0, lost_scenes=0,
                refused_unsat=0, random_final_region=0, dropped=0, sampling_timeouts=0)
@@ -498,7 +503,7 @@ def lattice_part(ck, tier, pairing):
             continue
         if rr["err_pruned"]:
             if rr["err_pruned"] == "TIMEOUT":
-                ck.violation(f"compiling lattice program {p['id']} with pruning did not return within {COMPILE_GUARD_S}s "
+                ck.violation(f"compiling lattice program {p['id']} with pruning did not return within {COMPILE_GUARD_S}s nor, re-tried, within {3 * COMPILE_GUARD_S}s "
                              f"(unpruned: {rr['t_unpruned']}s)", dict(base_replay, times=[rr["t_unpruned"], rr["t_pruned"]]))
                 continue
             if not satisfiable:
@@ -531,8 +536,9 @@ def lattice_part(ck, tier, pairing):
                 known_key=known)
             continue
         if rr["t_pruned"] > 100 * max(rr["t_unpruned"], 0.01) and rr["t_pruned"] > 10:
-            ck.violation(f"compiling lattice program {p['id']} with pruning took {rr['t_pruned']}s, "
-                         f"more than 100x the unpruned {rr['t_unpruned']}s", dict(base_replay, times=[rr["t_unpruned"], rr["t_pruned"]]))
+            # wall-clock ratios depend on the load of the box: an observation, not a verdict (the
+            # verdict for non-termination is the absolute guard, re-tried once with a longer one)
+            slow.append({"program": p["id"], "fam": p["fam"], "t_unpruned": rr["t_unpruned"], "t_pruned": rr["t_pruned"]})
 
         # ---- probes
         for oid, o in sorted(so.items()):
@@ -638,6 +644,7 @@ def lattice_part(ck, tier, pairing):
                        "accepted_scenes_checked": rr.get("scenes", 0)})
     ck.cov["lattice"] = tot
     ck.cov["dropped_examples"] = dropped_why[:12]
+    ck.cov["slow_pruned_compiles_over_100x"] = slow[:12]
     ck.cov["families"] = fam_stats
     return tot
 
